@@ -41,7 +41,7 @@ def make_cases(rng, tier):
         g = lvl.HistGen(rng)
         ops = g.history(rng.randint(2, 8))
         orders = [g.new_order() for _ in range(rng.randint(0, 5))]
-        ops.append("EXT %s %d %d %d [%s]" % (rng.choice(["snap", "ref", "data", "text"]), rng.choice([0, 7, 1 << 63]),
+        ops.append("EXT %s %d %d %d [%s]" % (rng.choice(["snap", "ref", "data", "text", "pkg", "pjson"]), rng.choice([0, 7, 1 << 63]),
                                             rng.choice([0, 3, (1 << 64) - 1]), rng.choice([0, 9]), ",".join(orders)))
         ops += ["MATCH %d u7000" % rng.choice([1, 5, 50]), "SNAP"]
         cs.append((g.price, ops))
